@@ -43,6 +43,12 @@ CliChecks(e) ==
      \cup Flag(c.cause \in (OutputCauses \cup InputCauses) => (e.exit = 1 /\ e.errline), "C10_io_failure_not_reported_as_an_error_by_the_tool")
      \* C04 at the tool: decryption reports success only for a complete authentic message completely delivered
      \cup Flag((c.cmd \in {"decrypt", "pass_decrypt"} /\ c.cause # "none") => e.exit # 0, "C04_tool_reports_success_without_a_verified_and_delivered_final_chunk")
+     \* C15 at the tool: a password the tool cannot take as given (not UTF-8), or a wrong one, never locks or unlocks anything
+     \cup Flag(c.cause \in {"non_utf8_password", "wrong_password"} => e.exit = 1, "C15_tool_works_under_a_password_other_than_the_one_given")
+     \* C17 at the tool: an entry whose checksum does not match is not a usable key, so it names nobody
+     \cup Flag((c.cmd = "decrypt" /\ c.sender = "badsum" /\ e.exit = 0) => e.named = "unknown", "C17_entry_with_bad_checksum_used_to_name_the_sender")
+     \* C05 at the tool: the file is made for the key the NAME given stands for (opened by the specification with that key)
+     \cup Flag((c.cmd = "encrypt" /\ c.cause = "none") => e.out = "full", "C05_tool_encrypted_to_or_from_another_key_than_the_named_one")
      \* C05 at the tool: whoever is reported is the holder of the authenticated key, never another keyring entry
      \cup Flag(e.exit = 0 => e.named \notin {"wrong_name", "wrong_unknown"}, "C05_tool_reports_a_sender_other_than_the_authenticated_key")
 
@@ -51,6 +57,8 @@ ArgvChecks(e) ==
   Flag(~e.timed_out, "C09_hang")
   \cup Flag(e.exit \in {0, 1}, "C09_exit_status_not_0_or_1")
   \cup Flag(e.errline = (e.exit = 1), "C09_error_line_iff_exit_1")
+  \* where the peak resident set of the process was measured (very large input files): a constant bound, 300 MB
+  \cup Flag("rss_kb" \notin DOMAIN e \/ e.rss_kb <= 300000, "C09_memory_raised_by_input_at_the_tool")
 
 \* C14: one `key generate -o F` step
 GenChecks(e) ==
@@ -77,6 +85,8 @@ TtyChecks(e) ==
   \cup (IF x.res = "ok"
         THEN Flag(e.rc = 0, "C12_exit_status_untruthful")
              \cup Flag(e.out = "full", "C12_result_incomplete_or_wrong")
+             \* C08: what an encryption leaves in its output is the file format and nothing else (no prompt, no name)
+             \cup (IF e.cmd \in {"encrypt", "pass_encrypt"} THEN Flag(e.out = "full", "C08_file_is_not_header_plus_records") ELSE {})
              \cup Flag(e.pw_ok, "C16_relocked_under_a_password_other_than_the_confirmed_one")
         ELSE IF x.res = "error"
         THEN Flag(e.rc = 1 /\ e.errline, "C12_exit_status_untruthful")
